@@ -93,4 +93,70 @@ theorem wf_of_roundtrip (n : Nat) (c : ClassInfo) (t : Nat) (r : Rec (Elem n)) (
   congr 2
   omega
 
+/-! ## Hand-modelled messages (packet-out, statistics, Nicira): the same link for an arbitrary message decoder -/
+
+/-- header bytes of anything that a header-shaped layout decodes: version, type and declared length are what the decoded
+    record and the length field say -/
+theorem hdr_of_decode {E : Type} (C : Codec E) (L : Layout) (nm1 nm2 : String) (F : List Field)
+    (hshape : L.fixed = .uint nm1 1 :: .uint nm2 1 :: .lenSelf 2 :: F) (bs tl0 : Bytes) (r : Rec E) (t : Nat) (vs : List Val)
+    (hvals : r.vals = .num 1 :: .num t :: vs) (h4 : 4 ≤ bs.length)
+    (hd0 : decode C L none bs = some (r, tl0)) (hlen : hdrLen L bs = some bs.length) :
+    byteAt bs 0 = 1 ∧ byteAt bs 1 = t ∧ declLen bs 0 = bs.length := by
+  have hfx : ∃ vs' l rest, decFixed L.fixed bs = some (vs', l, rest) ∧ vs' = r.vals := by
+    unfold decode at hd0
+    cases hdf : decFixed L.fixed bs with
+    | none => rw [hdf] at hd0; cases hd0
+    | some p =>
+      obtain ⟨vs', l, rest⟩ := p
+      rw [hdf] at hd0
+      refine ⟨vs', l, rest, rfl, ?_⟩
+      simp only [] at hd0
+      split at hd0
+      · cases hd0; rfl
+      · split at hd0
+        · cases hd0
+        · split at hd0
+          · cases hd0
+          · split at hd0
+            · cases hd0
+            · simp only [Option.map_eq_some_iff, Prod.mk.injEq] at hd0
+              obtain ⟨tv, _, he, _⟩ := hd0
+              rw [← he]
+  obtain ⟨vs', l, rest, hdf, hv⟩ := hfx
+  rw [hshape] at hdf
+  obtain ⟨vs'', hvv, hll⟩ := decFixed_hdr F nm1 nm2 bs vs' l rest hdf h4
+  have hb0 : byteAt bs 0 = 1 ∧ byteAt bs 1 = t := by
+    rw [hv, hvals] at hvv
+    simp only [List.cons.injEq, Val.num.injEq] at hvv
+    exact ⟨hvv.1.symm, hvv.2.1.symm⟩
+  have hdl : declLen bs 0 = bs.length := by
+    unfold hdrLen at hlen
+    rw [hshape, hdf] at hlen
+    simp only [] at hlen
+    rw [hll] at hlen
+    exact Option.some.inj hlen
+  exact ⟨hb0.1, hb0.2, hdl⟩
+
+/-- a table entry `unpackers[t]` that is "run this message decoder on the buffer from the offset" -/
+def viaDecoder {M : Type} (D : Bytes → Option (M × Bytes)) (buf : Bytes) (off : Nat) : Res (Nat × M) :=
+  match D (buf.drop off) with
+  | none => .raise
+  | some (m, rest) => .ok (off + ((buf.drop off).length - rest.length), m)
+
+/-- **wf_via**: for every decoder table whose entry for type `t` runs the message decoder `D`, a byte string with a valid
+    header of type `t` that `D` decodes — in front of anything — to `m`, consuming exactly it, is well-formed for the
+    framing theorems -/
+theorem wf_via {M : Type} (U : Unpack M) (t : Nat) (D : Bytes → Option (M × Bytes))
+    (hU : ∀ buf off, U t buf off = viaDecoder D buf off) (bs : Bytes) (m : M) (hh : Hdr bs) (ht : byteAt bs 1 = t)
+    (hdec : ∀ tl, D (bs ++ tl) = some (m, tl)) : WF U bs m := by
+  refine { toHdr := hh, dec := ?_ }
+  intro pre post
+  rw [ht, hU]
+  unfold viaDecoder
+  have hdrop : (pre ++ bs ++ post).drop pre.length = bs ++ post := by simp [List.append_assoc]
+  rw [hdrop, hdec post]
+  simp only [List.length_append]
+  congr 2
+  omega
+
 end Pox.FramingCodec
